@@ -22,7 +22,8 @@ package hessian
 //@   pure
 //@   defines R.unpackPtrType(typ)
 //@   loop 1 invariant [C16:unpack] true
-//@   ensures [C16,C13:unpacktype] R.tKind(result) != K.Ptr || R.tElem(result) == result
+//@   loop 2 invariant [C16:unpack-named] true
+//@   ensures [C16,C13:unpacktype] R.tKind(result) != K.Ptr || R.tName(result) != ""
 
 //@ func TypeName
 //@   pure
